@@ -455,6 +455,7 @@ def _observe_schema(case, S, T, orjson):
             return {"cls": type(f).__name__, "attrs": _attrs(f)}
 
         o["flat"] = _try(flat)
+        o["desc"] = _description_each(S.RelationSchema(name="d", columns=[c]))[0]
         # the library functions the model takes as parameters, observed on the values it will ask about
         vals = ([kw["default"]] if "default" in kw else []) + [c.default]
         try:
@@ -496,7 +497,7 @@ def _observe_schema(case, S, T, orjson):
 
     obs["restored"] = _try(rest)
     obs["top"] = [[f.name, enc(getattr(s, f.name))] for f in dataclasses.fields(S.RelationSchema) if f.name != "columns"]
-    obs["desc"] = _description_each(s)
+    obs["desc"] = [o["desc"] for o in obs["cols"]]
     obs["desc_all"] = _description(s)
     if restored is not None:
         obs["desc2"] = _description_each(restored)
@@ -921,7 +922,7 @@ def to_coq(case, obs):
             t = "(mkobs %s %s %s %s %s %s %s)" % (
                 L.text(o.get("fresh") or ""), _cres(b, lambda a: _ccolumn(a, I)), _cres(o["json"], lambda j: _cjson(j, I)),
                 _crobs(b[1], o["back"], I), _crobs(b[1], o["flat"], I),
-                _cdesc(obs["desc"][len(cols)] if "desc" in obs else DUMMY, I),
+                _cdesc(o["desc"], I),
                 _cdesc(obs["desc2"][len(cols)] if "desc2" in obs else DUMMY, I))
         else:
             t = "(mkobs [] %s (Raise OtherExn) (RFull (Raise OtherExn)) (RFull (Raise OtherExn)) (Raise OtherExn) (Raise OtherExn))" % _cres(b, lambda a: "")
